@@ -266,13 +266,13 @@ def gen_ops(ctx):
         if order <= 12:
             ops.append(f'C14 leftregfull {kind} {n}')
     # Euler's totient (the stated order of (Z/n)^*)
-    for n in range(0, 401 if q else 2001):
+    for n in range(0, 401 if q else 1201):
         ops.append(f'C14 totient {n}')
     # _dummy_partition on every predicate table for length <= 3 (2 quick) and on random ones above
     for n in range(0, 3 if q else 4):
         for bits in itertools.product('01', repeat=n * (n + 1)):
             ops.append(f'C14 dummypart {n} ' + (''.join(bits) or '-'))
-    for _ in range(150 if q else 2000):
+    for _ in range(150 if q else 800):
         n = rng.randint(3, 9)
         pr = rng.choice([0.2, 0.5, 0.8, 0.95])
         ops.append(f'C14 dummypart {n} ' + ''.join('1' if rng.random() < pr else '0' for _ in range(n * (n + 1))))
